@@ -3,6 +3,9 @@ package chk
 import (
 	"errors"
 	"fmt"
+	"strings"
+	"sync"
+	"sync/atomic"
 	"testing"
 
 	datatransfer "github.com/filecoin-project/go-data-transfer/v2"
@@ -369,6 +372,122 @@ func TestC08Mgr(t *testing.T) {
 		c.NonTrivial()
 		if c.Index < 2 {
 			c.Sample(map[string]any{"pull": pull, "initial_limit": L, "rounds": rounds, "blocks": pos, "final_progress": m.progress, "reopened": reopened})
+		}
+		f.stop()
+	})
+}
+
+// TestC08Race: the first block report of a channel in a process lifetime (its limit and progress are
+// not cached yet) overlaps an accepting validation update that changes the data limit. The report's
+// read of the stored state is slow (the datastore double holds it while the update is under way).
+// Afterwards the channel must obey the NEW limit: no pause below it (none at all for limit zero), a
+// pause exactly when it is reached.
+func TestC08Race(t *testing.T) {
+	vf.Run(t, "C08Race", vf.Opts{Bubble: true, DefaultN: 16}, func(c *vf.Case) {
+		r := c.Rng
+		peers := gen.Peers(r, 2)
+		self, other := peers[0], peers[1]
+		pull := c.Index%2 == 0
+		reopen := (c.Index/2)%2 == 1 // the first report of a NEW lifetime (cold caches) instead of the very first one
+		L1 := uint64(1000)
+		L2 := []uint64{5000, 0, 1500, 100000}[(c.Index/4)%4]
+		f := newMgrFix(c, self, nil)
+		f.val.SetOutcome(func(kind string, n int, ch datatransfer.ChannelID) (datatransfer.ValidationResult, error) {
+			return datatransfer.ValidationResult{Accepted: true, DataLimit: L1}, nil
+		})
+		v := gen.Voucher(r, "VT0")
+		tid := datatransfer.TransferID(1 + r.Intn(1<<30))
+		chid := f.mkResponder(pull, other, tid, v)
+		if f.view(chid) == nil {
+			panic("no channel")
+		}
+		f.tp.Events().OnTransferInitiated(chid)
+		settle()
+		pos := int64(0)
+		report := func(size uint64) error {
+			pos++
+			if pull {
+				_, err := f.tp.Events().OnDataQueued(chid, dummyLink, size, pos, true)
+				return err
+			}
+			return f.tp.Events().OnDataReceived(chid, dummyLink, size, pos, true)
+		}
+		progress := uint64(0)
+		if reopen {
+			if err := report(100); err != nil {
+				c.Note("warm-up report: %v", err)
+			}
+			progress += 100
+			settle()
+			f = f.reopen()
+			f.val.SetOutcome(func(kind string, n int, ch datatransfer.ChannelID) (datatransfer.ValidationResult, error) {
+				return datatransfer.ValidationResult{Accepted: true, DataLimit: L1}, nil
+			})
+		}
+		var armed, reading, updated atomic.Bool
+		key := ""
+		for _, w := range f.ds.Log() {
+			if strings.HasSuffix(w.Key, chid.String()) {
+				key = w.Key
+			}
+		}
+		f.ds.SetHook(func(op, k string) error {
+			if op == "get" && k == key && armed.Load() && reading.CompareAndSwap(false, true) {
+				// the read has been carried out by the store; its answer travels slowly
+				for i := 0; i < 4000 && !updated.Load(); i++ {
+					doubles.Yield(1)
+				}
+			}
+			return nil
+		})
+		var wg sync.WaitGroup
+		wg.Add(2)
+		var rerr, uerr error
+		armed.Store(true)
+		go func() { defer wg.Done(); rerr = report(400) }()
+		go func() {
+			defer wg.Done()
+			for i := 0; i < 4000 && !reading.Load(); i++ {
+				doubles.Yield(1)
+			}
+			uerr = f.m.UpdateValidationStatus(bg, chid, datatransfer.ValidationResult{Accepted: true, DataLimit: L2})
+			updated.Store(true)
+		}()
+		wg.Wait()
+		armed.Store(false)
+		f.ds.SetHook(nil)
+		settle()
+		progress += 400
+		if reading.Load() {
+			c.Count("report_read_overlapped_by_update", 1)
+		}
+		if rerr != nil || uerr != nil {
+			c.Note("overlapping report: %v, update: %v", rerr, uerr)
+		}
+		if vv := f.view(chid); vv == nil || vv.DataLimit != L2 {
+			c.Violation("C08", "limit-not-recorded", "accepting update to limit %d, the channel records %v", L2, vv)
+		}
+		// from here on the new limit rules
+		for i := 0; i < 40; i++ {
+			size := uint64(100 + r.Intn(600))
+			err := report(size)
+			settle()
+			progress += size
+			want := L2 != 0 && progress >= L2
+			got := errors.Is(err, datatransfer.ErrPause)
+			if got != want {
+				c.Violation("C08", fmt.Sprintf("pause-against-stale-limit got=%v reopened=%v", got, reopen), "pull=%v: limit changed %d -> %d while the first report was being served; block taking the total to %d answered pause=%v, want %v", pull, L1, L2, progress, got, want)
+				break
+			}
+			if got {
+				c.Count("paused_at_new_limit", 1)
+				break
+			}
+		}
+		c.Mark("pull=%v reopen=%v l2=%d", pull, reopen, L2)
+		c.NonTrivial()
+		if c.Index < 2 {
+			c.Sample(map[string]any{"engine": "first report overlapping a limit update", "pull": pull, "new_lifetime": reopen, "old_limit": L1, "new_limit": L2})
 		}
 		f.stop()
 	})
